@@ -26,7 +26,9 @@ META = {
                    "kept by add_blocks and by regrouping (fragment = the residue's atoms with only molecule edges between them): the "
                    "model of find_missing_edges yields a record for a residue-graph edge iff no atom-level edge joins the two "
                    "residues (the degree filter never drops an atom with an edge leaving its residue, by a counting argument on "
-                   "neighbour sets). Tied to the code by comparing the records of the real find_missing_edges with the model on the "
+                   "neighbour sets); consequently every residue-graph edge is either realised by an exhibited bond or reported, never "
+                   "both, and the records are a sub-sequence of the residue-graph edges in their order, at most one per edge, without "
+                   "any cap on their number and additive over the edge list. Tied to the code by comparing the records of the real find_missing_edges with the model on the "
                    "implementation's own graphs for generated force fields with and without applicable links, by recounting "
                    "inter-residue edges independently, and by matching gen_params' warnings one to one with the records. The "
                    "connectivity gate of gen_coords is probed on generated topologies; it inspects the residue graph only (F6)."),
